@@ -23,6 +23,12 @@ combinations*; `eval_case` runs the real implementation once per combination and
                one frame to the next (touching / colliding notes of different velocity), and every roll
                compute_pianoroll returns with 128 / 88 rows under any option combination - decodes into
                notes whose own roll (reference rasteriser, maximum on collision) is the given roll
+
+Magnitude dimension (spaces magnitude-*): the small two-row families again with every time multiplied by a large factor
+and / or shifted by a large offset (frame numbers on both sides of 2**16, around 2**20 and 2**24, reached through late
+onsets with the silence kept, a gap after an early note, a pickup far before 0, a large time_div, a large time_margin),
+notes longer than 2**16 frames, and regular arrays of 30 .. 2600 notes; shape / cells / velocity / index-rows / pc-fold
+are compared on the sparse matrix.
 """
 import itertools
 from fractions import Fraction as F
@@ -36,7 +42,8 @@ RULE = (
     "a case is one note array (ordered rows; times on the frame grid of the chosen resolution, or "
     "off-grid away from rounding ties) or one integer roll, evaluated under every option combination "
     "of its named option set; each (input, option combination) pair is one state; non-trivial = the "
-    "expected roll has at least two distinct non-zero cells or a collision"
+    "expected roll has at least two distinct non-zero cells or a collision; the magnitude spaces repeat the small "
+    "two-row families under every magnitude (factor, offset, resolution, margin) of a stated list"
 )
 ASSUMPTIONS = [
     "first frame of a note = round(time_div * (onset - start)), number of frames = max(1, round(time_div * duration)); "
@@ -57,7 +64,16 @@ ASSUMPTIONS = [
     "margin rolls) it leaves open WHICH notes are returned, and the check accepts every answer whose notes, rasterised as "
     "the first sentence of the statement prescribes (own velocity, maximum on collision, at least one frame), show "
     "exactly the given roll (clause decode-consistent); how a run of equal values is cut into notes is not compared",
-    "trusted: numpy, scipy.sparse (toarray, slicing)",
+    "magnitude spaces (rolls of 2**16 .. 2**24 columns): the sparse matrix is compared cell by cell with the sparse "
+    "reference (never densified) for shape, cells, velocity and index rows; such rolls are not decoded again "
+    "(pianoroll_to_notearray visits every column, seconds per roll) - the inverse clauses stay at the small scale; "
+    "pitch-class rolls (dense by contract) are checked up to 2**18 columns",
+    "magnitude bounds set by the data types, not by the property: tick / div columns are int32 as in partitura's own note "
+    "arrays (values kept below 2**30), float columns are float32 (only values that float32 holds exactly are generated, so "
+    "large frame numbers in float units come from a large time_div); rolls beyond about 2**24 columns are not generated "
+    "because the column pointer of the sparse matrix alone takes 8 bytes per column; an end_time that float64 does not "
+    "hold exactly (time_div 480 / 10080) is not passed (counted in option_combinations_skipped_as_ambiguous)",
+    "trusted: numpy, scipy.sparse (toarray, tocoo, slicing)",
 ]
 CHUNK = 4
 
@@ -92,10 +108,43 @@ def resolve(fam, o):
     return unit, int(div)
 
 
+PATTERN_PITCH = (60, 60, 64, 67)
+PATTERN_DUR = (1, 2, 3)
+
+
+def pattern_notes(pt):
+    """The long regular array of a `pattern` case: n notes, notes 2j and 2j+1 start at step * j + offset (so notes 0, 1 of
+    every group of four collide: pitches 60, 60, 64, 67 repeated), durations 1, 2, 3 repeated, velocities 1 + 37 i mod
+    127 (or none); rows ascending, descending, or in the stride-7 permutation of the ascending order."""
+    n, step = pt["n"], pt["step"]
+    rows = []
+    for i in range(n):
+        v = (1 + (37 * i) % 127) if pt["vel"] else None
+        rows.append([PATTERN_PITCH[i % 4], step * (i // 2) + pt.get("offset", 0), PATTERN_DUR[i % 3], v, None])
+    if pt["order"] == "desc":
+        rows.reverse()
+    elif pt["order"] == "stride7":
+        rows = [rows[(7 * i) % n] for i in range(n)]
+    elif pt["order"] != "asc":
+        raise ValueError(pt["order"])
+    return rows
+
+
+def case_notes(case):
+    """the rows [pitch, onset, duration, velocity, channel] of a case (written out, or given by a pattern)."""
+    if "pattern" in case:
+        return pattern_notes(case["pattern"])
+    return case["notes"]
+
+
+def case_text(case):
+    return "pattern=%s" % sorted(case["pattern"].items()) if "pattern" in case else "notes=%s" % (case["notes"],)
+
+
 def note_values(case, unit, div):
     """[(pitch, onset, duration, velocity, channel)] with exact times in the selected unit."""
     out = []
-    for p, on, du, v, ch in case["notes"]:
+    for p, on, du, v, ch in case_notes(case):
         if case.get("grid", "aligned") == "aligned":
             step = F(1) if unit in INT_UNITS else F(1, div)
             out.append((p, on * step, du * step, v, ch))
@@ -163,8 +212,11 @@ def rnd(x):
     return fl + (1 if rest > F(1, 2) else 0)
 
 
-def ref_roll(notes, div, o):
+def ref_roll(notes, div, o, sparse=False):
     """notes: [(pitch, onset, duration, velocity|None)] in input order (drums already left out).
+
+    sparse=True (rolls of the magnitude spaces, far too wide for a dense array): instead of `dense` the result holds
+    `keys` (sorted int64 array row * N + column of the non-zero cells) and `vals` (their values).
 
     Returns None when the case is outside the unambiguous part of the quantifier (rounding tie, or
     the two readings of a note's end frame differ); else a dict with M, N, dense (list of rows as a
@@ -175,12 +227,19 @@ def ref_roll(notes, div, o):
     lead = o["time_margin"] * div
     sep = 1 if o["note_separation"] else 0
     spans = []
+    # whole-number times (ticks, divs, the long arrays of the magnitude spaces): the same arithmetic on plain ints - no
+    # rounding, no tie, and round(div * (on + du - start)) = a + div * du, so the two readings of the end frame agree
+    whole = start.denominator == 1 and all(n[1].denominator == 1 and n[2].denominator == 1 for n in notes)
     try:
         for p, on, du, v in notes:
-            a = rnd(div * (on - start))
-            d = max(1, rnd(div * du))
-            if max(a + 1, rnd(div * (on + du - start))) != a + d:
-                return None
+            if whole:
+                a = div * (on.numerator - start.numerator)
+                d = max(1, div * du.numerator)
+            else:
+                a = rnd(div * (on - start))
+                d = max(1, rnd(div * du))
+                if max(a + 1, rnd(div * (on + du - start))) != a + d:
+                    return None
             spans.append((a + lead, a + d + lead))
     except Tie:
         return None
@@ -206,15 +265,19 @@ def ref_roll(notes, div, o):
     else:
         M = 128
         rows = list(pitches)
-    dense = np.zeros((M, N), dtype=np.int64)
+    dense = None if sparse else np.zeros((M, N), dtype=np.int64)
     idx = []
     collide = False
+    ks, vs = [], []
     for (p, on, du, v), (a, b), r in zip(notes, spans, rows):
         val = 1 if (v is None or o["binary"]) else v
         shown = max(a + 1, b - sep)
         cols = [a] if o["onset_only"] else range(a, shown)
         inrange = 0 <= r < M
-        if inrange:
+        if inrange and sparse:
+            ks.append((r * N + cols[0], len(cols)))  # key of the first cell, number of cells
+            vs.append(val)
+        elif inrange:
             for j in cols:
                 if dense[r, j]:
                     collide = True
@@ -224,8 +287,21 @@ def ref_roll(notes, div, o):
         else:
             ends = [shown]
         idx.append((r if inrange else None, a, ends, p))
-    return dict(M=M, N=N, dense=dense, idx=idx, end_time=end_time, start=start, spans=spans, rows=rows,
-                collide=collide, lead=lead)
+    out = dict(M=M, N=N, dense=dense, idx=idx, end_time=end_time, start=start, spans=spans, rows=rows,
+               collide=collide, lead=lead)
+    if sparse:
+        if M * N >= 2 ** 62:
+            raise AssertionError("generator: roll too large for the int64 cell keys of the reference")
+        first = np.array([k[0] for k in ks], dtype=np.int64)
+        count = np.array([k[1] for k in ks], dtype=np.int64)
+        # every stretch written out: first, first + 1, ..., first + count - 1
+        allk = np.repeat(first - (np.cumsum(count) - count), count) + np.arange(int(count.sum()), dtype=np.int64)
+        allv = np.repeat(np.array(vs, dtype=np.int64), count)
+        keys, inv = np.unique(allk, return_inverse=True)
+        vals = np.zeros(len(keys), dtype=np.int64)
+        np.maximum.at(vals, inv.reshape(-1), allv)
+        out.update(keys=keys, vals=vals, collide=len(keys) < len(allk))
+    return out
 
 
 def idx_matches(obs, exp):
@@ -352,6 +428,40 @@ def option_set(case):
         for i, (div_i, ks) in enumerate(itertools.product(range(3), range(2))):
             oo, sepn = OFF3_MODES[(fix["rot"] + i) % len(OFF3_MODES)]
             yield roll_opt((div_i, oo, sepn, 0, 0, ks, 0, 0, 0), unit=fix.get("unit", "auto"))
+    elif name == "roll-mag":
+        # magnitude spaces: unit and resolution are part of the magnitude (fixed per case); rows = which of the
+        # other options vary
+        unit, div, tm = fix["unit"], fix["div"], fix.get("tm")
+        rows = fix["rows"]
+        if rows == "cov":  # the pairwise covering array over the 8 other option dimensions
+            seen = []
+            for t in COV_ROLL:
+                t = (0,) + tuple(t[1:])
+                if t in seen:
+                    continue
+                seen.append(t)
+                o = roll_opt(t, unit=unit)
+                o["time_div"] = div
+                if tm is not None and o["time_margin"]:
+                    o["time_margin"] = tm
+                yield o
+        else:  # remove_silence (both, or the given one) x (plain, note_separation, onset_only - all, or the given one)
+            for ks in ((0, 1) if rows == "modes6" else (fix["ks"],)):
+                for oo, sepn in ([OFF3_MODES[fix["mode"]]] if rows == "one" else OFF3_MODES):
+                    o = roll_opt((0, oo, sepn, 0, 0, ks, 0, 0, 0), unit=unit)
+                    o["time_div"] = div
+                    if tm is not None:
+                        o["time_margin"] = tm
+                    yield o
+    elif name == "pc-mag":
+        # normalize x binary complete; display mode, remove_silence, return_idxs, end_time cycled from the case's rotation
+        unit, div, rot = fix["unit"], fix["div"], fix["rot"]
+        for i, (nm, bn) in enumerate(itertools.product(range(2), repeat=2)):
+            j = rot + i
+            oo, sepn = OFF3_MODES[j % 3]
+            o = pc_opt((0, nm, oo, sepn, 0, (j // 3) % 2, j % 2, (j // 2) % 3, bn), unit=unit)
+            o["time_div"] = div
+            yield o
     elif name == "pc-full":
         for t in itertools.product(*[range(d) for d in PC_DOMS]):
             if t[0] != fix["div_i"]:
@@ -534,6 +644,151 @@ def check_roll(res, case, o, stats, cache):
         decode_consistent(res, pr if plain else got.copy(), exp, div, unit, detail, stats)
 
 
+def sparse_cells(pr, N):
+    """(sorted keys row * N + column, values) of the non-zero cells of a sparse (or dense) matrix; entries stored twice
+    are added, as `toarray` would."""
+    if hasattr(pr, "tocoo"):
+        coo = pr.tocoo()
+        r, c, d = np.asarray(coo.row, dtype=np.int64), np.asarray(coo.col, dtype=np.int64), np.asarray(coo.data)
+    else:
+        a = np.asarray(pr)
+        r, c = np.nonzero(a)
+        r, c, d = r.astype(np.int64), c.astype(np.int64), a[r, c]
+    keys, inv = np.unique(r * N + c, return_inverse=True)
+    vals = np.zeros(len(keys), dtype=d.dtype if len(d) else np.int64)
+    np.add.at(vals, inv.reshape(-1), d)
+    keep = vals != 0
+    return keys[keep], vals[keep]
+
+
+def cells_text(keys, vals, N, only=None):
+    """[[row, column, value]] of (at most 24 of) the cells; `only` = restrict to these keys."""
+    if only is not None:
+        m = np.isin(keys, only)
+        keys, vals = keys[m], vals[m]
+    return [[int(k // N), int(k % N), int(v) if float(v) == int(v) else float(v)] for k, v in zip(keys[:24].tolist(), vals[:24].tolist())]
+
+
+def _exact_float(x):
+    return x is None or F(float(x)) == x
+
+
+def check_roll_big(res, case, o, stats, cache):
+    """check_roll for rolls with 2**16 .. 2**24 columns: shape, cells, velocity and index rows are compared on the
+    sparse matrix (never densified); the roll is not decoded (pianoroll_to_notearray visits every column)."""
+    from partitura.utils.music import compute_pianoroll
+
+    fam, unit, div, arr, notes = _ref_inputs(case, o, cache)
+    ref = ref_roll(notes, div, o, sparse=True)
+    if ref is None or not _exact_float(ref["end_time"]):
+        stats["skipped"] += 1
+        return
+    kw = _kwargs(o, ref, ROLL_KW)
+    detail = "%s mag=%s fam=%s kwargs=%s" % (case_text(case), case.get("mag"), fam, sorted(kw.items()))
+    res.states += 1
+    res.traces += 1
+    res.transitions += 1
+    ok, out = _call(res, "total", detail, compute_pianoroll, arr, **kw)
+    if not ok:
+        return
+    if o["return_idxs"]:
+        if not (isinstance(out, tuple) and len(out) == 2):
+            res.fail("index-rows", expected="(roll, index array)", observed=type(out).__name__, where="compute_pianoroll", detail=detail)
+            return
+        pr, idx = out
+    else:
+        pr, idx = out, None
+    if isinstance(pr, tuple) or not hasattr(pr, "shape"):
+        res.fail("shape", expected="a matrix", observed=type(pr).__name__, where="compute_pianoroll", detail=detail)
+        return
+    M, N = ref["M"], ref["N"]
+    ek, ev = ref["keys"], ref["vals"]
+    stats["nnz"] += len(ek)
+    stats["maxcol"] = max(stats.get("maxcol", 0), N)
+    if len(ek) >= 2 or ref["collide"]:
+        stats["nontrivial"] += 1
+    if tuple(pr.shape) != (M, N):
+        res.fail("shape", expected=[M, N], observed=list(pr.shape), where="compute_pianoroll shape", detail=detail)
+        return
+    gk, gv = sparse_cells(pr, N)
+    if not np.array_equal(gk, ek):
+        res.fail("cells", expected="%d cells, not shown: %s" % (len(ek), cells_text(ek, ev, N, np.setdiff1d(ek, gk))),
+                 observed="%d cells, not expected: %s" % (len(gk), cells_text(gk, gv, N, np.setdiff1d(gk, ek))),
+                 where="compute_pianoroll cells", detail=detail)
+        return
+    if not np.array_equal(gv, ev):
+        bad = ek[gv != ev]
+        res.fail("velocity", expected=cells_text(ek, ev, N, bad), observed=cells_text(gk, gv, N, bad),
+                 where="compute_pianoroll cell values", detail=detail)
+        return
+    if idx is not None:
+        idx = np.asarray(idx)
+        if not idx_matches(idx, ref["idx"]):
+            bad = [i for i, (row, e) in enumerate(zip(idx.tolist(), ref["idx"])) if not idx_matches(np.asarray([row]), [e])][:8] \
+                if idx.ndim == 2 and idx.shape == (len(ref["idx"]), 4) else None
+            if bad is None:
+                res.fail("index-rows", expected="%d rows of 4" % len(ref["idx"]), observed=list(idx.shape),
+                         where="compute_pianoroll index rows", detail=detail)
+            else:
+                res.fail("index-rows", expected=[[i] + idx_text([ref["idx"][i]])[0] for i in bad],
+                         observed=[[i] + idx[i].tolist() for i in bad], where="compute_pianoroll index rows", detail=detail)
+
+
+def check_pc_big(res, case, o, stats, cache):
+    """check_pc for rolls with more than 2**16 columns (octave fold computed from the sparse reference cells)."""
+    from partitura.utils.music import compute_pitch_class_pianoroll
+
+    fam, unit, div, arr, notes = _ref_inputs(case, o, cache)
+    ref = ref_roll(notes, div, dict(o, binary=False), sparse=True)
+    if ref is None or not _exact_float(ref["end_time"]):
+        stats["skipped"] += 1
+        return
+    kw = _kwargs(o, ref, PC_KW)
+    detail = "pitch-class %s mag=%s fam=%s kwargs=%s" % (case_text(case), case.get("mag"), fam, sorted(kw.items()))
+    res.states += 1
+    res.traces += 1
+    res.transitions += 1
+    ok, out = _call(res, "total", detail, compute_pitch_class_pianoroll, arr, **kw)
+    if not ok:
+        return
+    if o["return_idxs"]:
+        if not (isinstance(out, tuple) and len(out) == 2):
+            res.fail("index-rows", expected="(roll, index array)", observed=type(out).__name__, where="compute_pitch_class_pianoroll", detail=detail)
+            return
+        pc, idx = out
+    else:
+        pc, idx = out, None
+    N = ref["N"]
+    stats["maxcol"] = max(stats.get("maxcol", 0), N)
+    fold = np.zeros((12, N), dtype=np.int64)
+    np.add.at(fold, ((ref["keys"] // N) % 12, ref["keys"] % N), ref["vals"])
+    if o["binary"]:
+        fold = (fold > 0).astype(np.int64)
+    nzf = int(np.count_nonzero(fold))
+    stats["nnz"] += nzf
+    if nzf >= 2:
+        stats["nontrivial"] += 1
+    expf = fold.astype(float)
+    if o["normalize"]:
+        tot = fold.sum(axis=0)
+        expf = expf / np.where(tot == 0, 1, tot).astype(float)
+    pc = np.asarray(pc)
+    if pc.shape != (12, N):
+        res.fail("shape", expected=[12, N], observed=list(pc.shape), where="compute_pitch_class_pianoroll shape", detail=detail)
+        return
+    wrong = np.abs(pc.astype(float) - expf) > 1e-9 * np.maximum(1.0, np.abs(expf))
+    if wrong.any():
+        at = np.argwhere(wrong)[:24].tolist()
+        res.fail("pc-fold", expected=[[r, c, float(expf[r, c])] for r, c in at], observed=[[r, c, float(pc[r, c])] for r, c in at],
+                 where="compute_pitch_class_pianoroll cells", detail=detail)
+        return
+    if idx is not None:
+        want = [(None if r is None else r % 12, a, ends, p) for r, a, ends, p in ref["idx"]]
+        idx = np.asarray(idx)
+        if not idx_matches(idx, want):
+            res.fail("index-rows", expected=idx_text(want), observed=idx.tolist(), where="compute_pitch_class_pianoroll index rows", detail=detail)
+
+
 def check_pc(res, case, o, stats, cache):
     from partitura.utils.music import compute_pitch_class_pianoroll
 
@@ -664,13 +919,18 @@ def eval_case(case):
     if kind == "inv":
         check_inverse(res, case, stats)
     else:
-        fn = check_roll if kind == "roll" else check_pc
+        if case.get("big"):
+            fn = check_roll_big if kind == "roll" else check_pc_big
+        else:
+            fn = check_roll if kind == "roll" else check_pc
         cache = {}
         for o in option_set(case):
             fn(res, case, o, stats, cache)
     res.nontrivial = stats["nontrivial"] > 0
     res.outcome = "%s evals=%d nnz=%d rt=%d dec=%d skipped=%d%s" % (kind, res.states, stats["nnz"], stats["roundtrips"],
                                                                  stats["decodes"], stats["skipped"], " touching" if stats["touching"] else "")
+    if case.get("big"):  # widest roll of the case, as a power of two
+        res.outcome += " cols<2^%d" % max(1, int(stats.get("maxcol", 0)).bit_length())
     res.extra = {"option_combinations_skipped_as_ambiguous": stats["skipped"], "round_trips": stats["roundtrips"],
                  "decodes_checked_for_consistency": stats["decodes"],
                  "nontrivial_evaluations": stats["nontrivial"]}
@@ -851,6 +1111,147 @@ def gen_inverse_cells(R, n_max, rows, values, divs, containers):
                        divs=divs, containers=containers)
 
 
+# ---------------------------------------------------------------------------------------------
+# magnitude dimension: the small two-row families again, with the times made large
+#
+# a magnitude = (name, unit kind, time_div, onset factor, duration factor, offset K, rows shifted by K, time_margin):
+#   onset' = onset * factor (+ K for the shifted rows), duration' = duration * duration factor, in ticks / divs
+#   (kind "i") or seconds / beats / quarters (kind "f"); frame index = time_div * (onset' - start) + time_div * margin
+INT_FAMS = (("perf", "tick"), ("score", "div"), ("perf-t", "auto"), ("score-d", "auto"))
+FLT_FAMS = (("perf", "sec"), ("score", "beat"), ("score", "quarter"), ("score-qd", "auto"))
+MAGS_CORE = [  # frame indices on both sides of 2**16, reached in four different ways
+    ("off16-gap0", "i", 1, 1, 1, 2 ** 16 - 3, "not0", None),     # first row early, the other 65533 ticks later
+    ("fac65536", "i", 1, 2 ** 16, 1, 0, "all", None),             # onsets 0, 65536, 131072
+    ("tdiv480", "f", 480, 137, "1/16", 0, "all", None),           # 480 frames per second, onsets 0, 137, 274 s
+    ("margin65537", "i", 1, 1, 1, 0, "all", 2 ** 16 + 1),         # time_margin beyond 2**16 frames
+]
+MAGS_REST = [
+    ("off16-all", "i", 1, 1, 1, 2 ** 16 - 3, "all", None),       # late start, silence kept (or removed: control)
+    ("off16-gap1", "i", 1, 1, 1, 2 ** 16 - 3, "not1", None),     # second row early
+    ("off16+all", "i", 1, 1, 1, 2 ** 16 + 1, "all", None),
+    ("off16+gap0", "i", 1, 1, 1, 2 ** 16 + 1, "not0", None),
+    ("off16+gap1", "i", 1, 1, 1, 2 ** 16 + 1, "not1", None),
+    ("off17gap0", "i", 1, 1, 1, 2 ** 17 + 1, "not0", None),
+    ("div4-gap0", "i", 4, 1, 1, 2 ** 14 + 1, "not0", None),       # 16385 ticks at 4 frames per tick
+    ("tdiv10080", "f", 10080, 7, "1/16", 0, "all", None),         # 10080 frames per beat, onsets 0, 7, 14 beats
+    ("margin-div4", "f", 4, "1/4", "1/4", 0, "all", 2 ** 14 + 1),  # time_margin 16385 units at 4 frames per unit
+    ("pickup16", "i", 1, 1, 1, -(2 ** 16 + 1), "only0", None),    # first row 65537 ticks before time 0
+    ("fac480", "i", 1, 480, 1, 0, "all", None),                   # the usual tick factors (below 2**16: controls)
+    ("fac10080", "i", 1, 10080, 1, 0, "all", None),
+]
+MAGS_20 = [
+    ("off20-all", "i", 1, 1, 1, 2 ** 20 + 1, "all", None),
+    ("off20-gap0", "i", 1, 1, 1, 2 ** 20 + 1, "not0", None),
+    ("fac302400", "i", 1, 302400, 1, 0, "all", None),             # onsets 0, 302400, 604800
+]
+MAGS_24 = [
+    ("off24-gap0", "i", 1, 1, 1, 2 ** 24 + 1, "not0", None),
+    ("off24-gap1", "i", 1, 1, 1, 2 ** 24 + 1, "not1", None),
+]
+MAGS_PC = [MAGS_CORE[0], MAGS_CORE[2]]
+MAGS_PC_REST = [MAGS_CORE[1], MAGS_REST[0], MAGS_REST[1], MAGS_REST[3], MAGS_REST[6]]
+
+
+def _fs(x):
+    x = F(x)
+    return int(x) if x.denominator == 1 else "%d/%d" % (x.numerator, x.denominator)
+
+
+def mag_apply(base, mag):
+    """rows [pitch, onset, duration, velocity, None] of the base array under the magnitude."""
+    name, kind, div, f, g, K, shift, tm = mag
+    rows = []
+    for i, (p, on, du, v) in enumerate(base):
+        shifted = shift == "all" or (shift == "not0" and i != 0) or (shift == "not1" and i != 1) or (shift == "only0" and i == 0)
+        rows.append([p, _fs(on * fr(f) + (K if shifted else 0)), _fs(du * fr(g)), v, None])
+    return rows
+
+
+def _split_modes(case):
+    """rows "split3" / "split6": the same option combinations as "modes3" / "modes6", one case per combination (expensive
+    cases: keeps the work items small)."""
+    rows = case["fix"]["rows"]
+    if rows not in ("split3", "split6"):
+        yield case
+        return
+    for ks in ((0, 1) if rows == "split6" else (case["fix"]["ks"],)):
+        for m in range(len(OFF3_MODES)):
+            yield dict(case, fix=dict(case["fix"], rows="one", ks=ks, mode=m))
+
+
+def gen_mag(kind, mags, pitches, onsets, durs, vels, rows, ks=None):
+    """every ordered 2-row array over the alphabets x every magnitude of the list; column family / unit cycled."""
+    k = 0
+    for mag in mags:
+        for p1, p2 in pitches:
+            for o1, o2 in onsets:
+                for d1, d2 in durs:
+                    for v1, v2 in vels:
+                        fam, unit = (INT_FAMS if mag[1] == "i" else FLT_FAMS)[k % 4]
+                        k += 1
+                        fix = dict(unit=unit, div=mag[2], tm=mag[7], rows=rows, rot=k)
+                        if ks is not None:
+                            fix["ks"] = ks
+                        case = dict(kind=kind, big=1, grid="raw", fam=fam, mag=mag[0], fix=fix,
+                                    optset="roll-mag" if kind == "roll" else "pc-mag",
+                                    notes=mag_apply([(p1, o1, d1, v1), (p2, o2, d2, v2)], mag))
+                        for c in _split_modes(case):
+                            yield c
+
+
+SQ3 = tuple(itertools.product((0, 1, 2), repeat=2))
+MAG_VELS = ((None, None), (64, 127), (127, 64))
+SMALL_ON = ((0, 1), (1, 0), (1, 1))
+SMALL_DU = ((1, 2), (2, 1))
+
+
+def gen_long_notes(lengths, starts, ats, rows):
+    """a note of L ticks from tick s0 under / beside a short note (1 or 2 ticks, cycled) placed at tick 1, just before and
+    just after frame 2**16, on the long note's last frame and right after it; same pitch (collision inside the long note,
+    the short note louder or softer) or the neighbouring pitch without velocities; both row orders."""
+    n = 0
+    for L in lengths:
+        for s0 in starts:
+            for at in ats:
+                at = {"start": 1, "before16": 2 ** 16 - 1, "after16": 2 ** 16 + 1, "last": s0 + L - 1, "behind": s0 + L}[at]
+                for p2, (v1, v2) in ((60, (64, 127)), (60, (127, 64)), (61, (None, None))):
+                    fam, unit = INT_FAMS[n % 4]
+                    for swap in (0, 1):
+                        notes = [[60, s0, L, v1, None], [p2, at, 1 + n % 2, v2, None]]
+                        if swap:
+                            notes.reverse()
+                        case = dict(kind="roll", big=1, grid="raw", fam=fam, mag="long-note-%d" % L, optset="roll-mag",
+                                    fix=dict(unit=unit, div=1, tm=None, rows=rows, ks=(n // 2) % 2), notes=notes)
+                        for c in _split_modes(case):
+                            yield c
+                    n += 1
+
+
+def gen_patterns(ns, steps, offsets):
+    k = 0
+    for n in ns:
+        if n % 7 == 0:
+            raise AssertionError("stride-7 order needs n prime to 7")
+        for step in steps:
+            for offset in offsets:
+                for order in ("asc", "desc", "stride7"):
+                    for vel in (1, 0):
+                        fam, unit = INT_FAMS[(k // 2) % 4]
+                        k += 1
+                        yield dict(kind="roll", big=1, grid="raw", fam=fam, mag="pattern", optset="roll-mag",
+                                   fix=dict(unit=unit, div=1, tm=None, rows="modes6"),
+                                   pattern=dict(n=n, step=step, offset=offset, order=order, vel=vel))
+
+
+MAG_TXT = ("magnitudes (name: unit kind, time_div, onset factor, duration factor, offset K, rows shifted by K, time_margin): %s; "
+           "int kinds in tick / div columns (i4), float kinds in sec / beat / quarter columns (f4, every value exactly "
+           "representable); column family and time_unit (explicit or auto) cycled")
+
+
+def _mag_txt(mags):
+    return MAG_TXT % "; ".join("%s: %s" % (m[0], ", ".join(str(x) for x in m[1:])) for m in mags)
+
+
 def _block(gen, B, b):
     def it():
         for c in gen():
@@ -991,6 +1392,74 @@ def spaces(tier, seed):
                         "in {0,40,90}, n <= 5, and ALL 128 x n rolls with every cell of rows 0,60,61 in {0,64,127} and 88 x n rolls "
                         "with every cell of rows 0,39,87 in {0,1,64}, n <= 3; rolls of non-touching runs must decode into exactly "
                         "their runs, rolls with a value change between adjacent frames into notes that show the roll again; " + INV_TXT))
+    # ---- magnitude dimension: the same small arrays with large times (rolls of 2**16 .. 2**24 columns)
+    big_txt = (" Compared on the sparse matrix: shape, cells, velocity, index rows (no decoding: pianoroll_to_notearray "
+               "visits every column).")
+    PB = ((60, 60), (127, 0))
+    PBT = ((60, 60), (60, 61), (127, 0), (21, 108))
+    two_txt = ("ALL ordered 2-row arrays pitch%s x onset{0,1,2}^2 x duration{0,1,2}^2 base steps x velocity{absent,(64,127),"
+               "(127,64)} x EVERY magnitude of the list, each under the pairwise covering array over the 8 option dimensions "
+               "other than the resolution (15 rows; time_margin 1 replaced by the magnitude's margin where it has one); ")
+    if quick:
+        sp.append(Space("magnitude-two-row", lambda: gen_mag("roll", MAGS_CORE, PB, SQ3, SQ3, MAG_VELS, "cov"), True,
+                        two_txt % "{(60,60),(127,0)}" + _mag_txt(MAGS_CORE) + big_txt))
+        BM = 16
+        sp.append(Space("magnitude-two-row-block",
+                        _block(lambda: gen_mag("roll", MAGS_REST, PB, SQ3, SQ3, MAG_VELS, "cov"), BM, seed % BM), True,
+                        "block %d of %d (sha1 of the case) of: " % (seed % BM, BM) + two_txt % "{(60,60),(127,0)}" + _mag_txt(MAGS_REST) + big_txt))
+        sp.append(Space("magnitude-2^20",
+                        lambda: gen_mag("roll", MAGS_20, PB, SMALL_ON, SMALL_DU, MAG_VELS[:2], "modes6"), True,
+                        "ALL ordered 2-row arrays pitch{(60,60),(127,0)} x onset{(0,1),(1,0),(1,1)} x duration{(1,2),(2,1)} x velocity"
+                        "{absent,(64,127)} x every magnitude x remove_silence x {plain, note_separation, onset_only}; " + _mag_txt(MAGS_20) + big_txt))
+        sp.append(Space("magnitude-2^24",
+                        lambda: gen_mag("roll", MAGS_24, PB, ((0, 1),), ((1, 2),), MAG_VELS[1:2], "split3", ks=0), True,
+                        "ALL ordered 2-row arrays pitch{(60,60),(127,0)} x onset (0,1) x duration (1,2) x velocity (64,127) x "
+                        "every magnitude x {plain, note_separation, onset_only}, silence removed; " + _mag_txt(MAGS_24) +
+                        " Wider rolls are not generated: the sparse column pointer alone needs 8 bytes per column." + big_txt))
+        sp.append(Space("magnitude-long-notes",
+                        lambda: gen_long_notes((2 ** 16 + 2,), (3,), ("after16", "last"), "split3"), True,
+                        "a note of 65538 ticks from tick 3 with a short note (1 or 2 ticks, cycled) at tick {65537, the "
+                        "long note's last tick} on the same pitch (louder / softer) or the next pitch without velocities, both "
+                        "row orders, x {plain, note_separation, onset_only}; remove_silence and column family cycled." + big_txt))
+        sp.append(Space("magnitude-patterns", lambda: gen_patterns((30, 300, 1100, 2600), (1, 60, 480), (0,)), True,
+                        "regular arrays of n in {30,300,1100,2600} notes (pairs of notes every `step` in {1,60,480} ticks, pitches "
+                        "60,60,64,67 repeated - two of four collide -, durations 1,2,3 repeated, velocities 1 + 37 i mod 127 or none) "
+                        "x rows ascending / descending / stride-7 permutation x remove_silence x {plain, note_separation, "
+                        "onset_only}; up to 624000 columns." + big_txt))
+        sp.append(Space("magnitude-pitch-class",
+                        lambda: gen_mag("pc", MAGS_PC, ((60, 72), (127, 0)), SMALL_ON, SMALL_DU[:1], MAG_VELS[:2], None), True,
+                        "pitch-class rolls of ALL ordered 2-row arrays pitch{(60,72),(127,0)} x onset{(0,1),(1,0),(1,1)} x duration"
+                        " (1,2) x velocity{absent,(64,127)} x every magnitude x normalize x binary (display mode, "
+                        "remove_silence, return_idxs, end_time cycled); fold computed from the sparse reference cells; " + _mag_txt(MAGS_PC)))
+    else:
+        sp.append(Space("magnitude-two-row", lambda: gen_mag("roll", MAGS_CORE + MAGS_REST, PBT, SQ3, SQ3, MAG_VELS, "cov"), True,
+                        two_txt % "{(60,60),(60,61),(127,0),(21,108)}" + _mag_txt(MAGS_CORE + MAGS_REST) + big_txt))
+        sp.append(Space("magnitude-2^20",
+                        lambda: gen_mag("roll", MAGS_20, PB + ((60, 61),), SQ3, SMALL_DU + ((0, 1), (1, 1)), MAG_VELS, "modes6"), True,
+                        "ALL ordered 2-row arrays pitch{(60,60),(127,0),(60,61)} x onset{0,1,2}^2 x duration{(1,2),(2,1),(0,1),(1,1)} x "
+                        "velocity{absent,(64,127),(127,64)} x every magnitude x remove_silence x {plain, note_separation, "
+                        "onset_only}; " + _mag_txt(MAGS_20) + big_txt))
+        sp.append(Space("magnitude-2^24",
+                        lambda: gen_mag("roll", MAGS_24, PB, SMALL_ON, SMALL_DU, MAG_VELS[:2], "split6"), True,
+                        "ALL ordered 2-row arrays pitch{(60,60),(127,0)} x onset{(0,1),(1,0),(1,1)} x duration{(1,2),(2,1)} x velocity"
+                        "{absent,(64,127)} x every magnitude x remove_silence x {plain, note_separation, onset_only}; " + _mag_txt(MAGS_24) +
+                        " Wider rolls are not generated: the sparse column pointer alone needs 8 bytes per column." + big_txt))
+        sp.append(Space("magnitude-long-notes",
+                        lambda: gen_long_notes((2 ** 16 + 2, 2 ** 16 + 2 ** 15), (0, 3), ("start", "before16", "after16", "last", "behind"), "split6"), True,
+                        "a note of L in {65538, 98304} ticks from tick {0,3} with a short note (1 or 2 ticks, cycled) at tick {1, 65535, "
+                        "65537, the long note's last tick, the tick after it} on the same pitch (louder / softer) or the next pitch "
+                        "without velocities, both row orders, x remove_silence x {plain, note_separation, onset_only}." + big_txt))
+        sp.append(Space("magnitude-patterns", lambda: gen_patterns((30, 300, 1100, 2600), (1, 60, 480), (0, 2 ** 16 + 1)), True,
+                        "regular arrays of n in {30,300,1100,2600} notes (pairs of notes every `step` in {1,60,480} ticks from tick "
+                        "{0, 65537}, pitches 60,60,64,67 repeated - two of four collide -, durations 1,2,3 repeated, velocities "
+                        "1 + 37 i mod 127 or none) x rows ascending / descending / stride-7 permutation x remove_silence x {plain, "
+                        "note_separation, onset_only}." + big_txt))
+        sp.append(Space("magnitude-pitch-class",
+                        lambda: gen_mag("pc", MAGS_PC + MAGS_PC_REST, ((60, 72), (127, 0), (59, 60)), SQ3, SMALL_DU, MAG_VELS, None), True,
+                        "pitch-class rolls of ALL ordered 2-row arrays pitch{(60,72),(127,0),(59,60)} x onset{0,1,2}^2 x duration"
+                        "{(1,2),(2,1)} x velocity{absent,(64,127),(127,64)} x every magnitude x normalize x binary (display mode, "
+                        "remove_silence, return_idxs, end_time cycled); fold computed from the sparse reference cells; " +
+                        _mag_txt(MAGS_PC + MAGS_PC_REST)))
     return sp
 
 
